@@ -44,14 +44,15 @@ type Script struct {
 
 // Conn is a scripted net.Conn. It is used by exactly one goroutine.
 type Conn struct {
-	S        Script
-	pos      int
-	reads    int
-	split    int
-	Out      []byte
-	Writes   int
-	Closes   int
-	ClosedAt int // len(Out) at first Close
+	S         Script
+	pos       int
+	reads     int
+	split     int
+	Out       []byte
+	Writes    int
+	Closes    int
+	WriteShut bool // the server shut down its sending side (CloseWrite)
+	ClosedAt  int  // len(Out) at first Close
 	// EndSeenAtClose: the end of the stream (EOF / reset) had already been reported to
 	// the reader when Close was first called - the connection ended because the client
 	// was done, not because the server gave up on it.
@@ -142,7 +143,7 @@ func (c *Conn) Write(p []byte) (int, error) {
 	if c.Closes == 0 && c.Writes < 1<<16 {
 		OnTransport()
 	}
-	if c.Closes > 0 {
+	if c.Closes > 0 || c.WriteShut {
 		return 0, ErrClosed
 	}
 	c.Writes++
@@ -172,6 +173,17 @@ func (c *Conn) Close() error {
 		return nil
 	}
 	return ErrClosed
+}
+
+// CloseWrite shuts down the sending side (a half close by the server): later writes fail,
+// reads go on. The scripted client reacts to nothing, so the rest of the script is delivered
+// and then the stream ends.
+func (c *Conn) CloseWrite() error {
+	if c.Closes > 0 {
+		return ErrClosed
+	}
+	c.WriteShut = true
+	return nil
 }
 
 // Delivered is the number of input bytes handed to the reader so far.
